@@ -460,9 +460,19 @@ def m_timeout_poll(c, pin, cx):
     ptr = pin.fields[0]
     t = ip.load(ptr.cell, ptr.path)
     dur, fut = t.data
-    if not ip.env.get('no_timeouts') and ip.choose(2, 'timeout_elapses') == 1:
+    only = ip.env.get('timeout_only_ns')
+    if only is not None:
+        # {duration in ns: None | gate()}: only deadlines of exactly these durations may fire (and only while their gate holds)
+        d0 = dur.fields[0] if isinstance(dur, Agg) and dur.fields else None
+        may = d0 is not None and d0.concrete and d0.v in only and (only[d0.v] is None or only[d0.v]())
+    else:
+        may = not ip.env.get('no_timeouts')
+    if may and ip.choose(2, 'timeout_elapses') == 1:
         ip.env.setdefault('timeouts_elapsed', []).append(dur)
         ip.env.setdefault('events', []).append(('timeout_elapsed',))
+        cb = ip.env.get('on_timeout_elapsed')
+        if cb:
+            cb(dur)
         return poll_ready(ip, err(ip, Opaque('Elapsed', 'elapsed')))
     out = ip.drive(fut)
     ip.env.setdefault('events', []).append(('timeout_inner_done',))
